@@ -12,6 +12,15 @@ QCLS = "class Q { public qubit q; public constructor() -> Q = default; }\n"
 # QRuntime.Injective (checked by TLC): two declarations never denote one simulator qubit while both are reachable.
 # Each probe creates a second declaration D2 by some route next to a reachable D1, flips D1 and measures D2: a fresh
 # qubit reads 0 (or the program is refused); 1 - or a 'measured' refusal caused by the other handle - means shared.
+GSTAT = ("class Cell<T> { public static qubit anc; public T tag; public constructor() -> Cell<T> = default;\n"
+         "  public static function flipAnc() -> void { x(anc); }\n  public static function readAnc() -> bit { bit r0 = measure anc; return r0; } }\n"
+         "class Node extends Cell<int> { public qubit data; public constructor() -> Node { super(); } }\n")
+CHAIN_D = ("class Probe extends Stage<int> { public qubit sense; public constructor() -> Probe { super(); }\n"
+           "  public function flipSense() -> void { x(this.sense); }\n  public function readSense() -> bit { bit r0 = measure this.sense; return r0; } }\n")
+CHAIN_G = ("class Stage<T> extends Link<T> { public constructor() -> Stage<T> { super(); } }\n"
+           "class Link<T> extends Carrier { public constructor() -> Link<T> { super(); } }\n")
+CHAIN_P = ("class Carrier { public qubit payload; public constructor() -> Carrier = default;\n"
+           "  public function flipPayload() -> void { x(this.payload); }\n  public function readPayload() -> bit { bit r0 = measure this.payload; return r0; } }\n")
 HANDLE_PROBES = [
     ("init_local", "function main() -> void { qubit a; qubit b = a; x(a); bit r = measure b; echo(r); bit s = measure a; }\n", "0"),
     ("init_elem", "function main() -> void { qubit[2] reg; qubit d = reg[1]; x(reg[1]); bit r = measure d; echo(r); measure reg; }\n", "0"),
@@ -28,6 +37,23 @@ HANDLE_PROBES = [
                             "function main() -> void { Q o = new Q(); echo(g(o.q, o)); }\n", "0"),
     ("scope_recycle", QCLS + "function main() -> void { qubit a; { Q o = new Q(); x(o.q); bit t = measure o.q; } qubit b; x(a); bit r = measure b; echo(r); "
                       "bit s = measure a; }\n", "0"),
+    # declarations living in class layouts the class table builds before main runs: a static qubit of a generic class that a plain
+    # class derives from, and qubit fields of a plain class reached through two generic levels (either declaration order)
+    ("static_generic_base_vs_local", GSTAT + "function main() -> void { qubit a; Node n = new Node(); Node.flipAnc(); bit r = measure a; echo(r); "
+                                     "bit s = Node.readAnc(); bit t = measure n.data; }\n", "0"),
+    ("static_generic_base_vs_field", GSTAT + "function main() -> void { Node n = new Node(); Node.flipAnc(); bit r = measure n.data; echo(r); "
+                                     "bit s = Node.readAnc(); }\n", "0"),
+    ("static_generic_base_vs_array", GSTAT + "function main() -> void { qubit[2] reg; Node.flipAnc(); bit r = measure reg[0]; echo(r); bit u = measure reg[1]; "
+                                     "bit s = Node.readAnc(); }\n", "0"),
+    ("static_generic_base_control", GSTAT + "function main() -> void { qubit a; Node.flipAnc(); bit s = Node.readAnc(); echo(s); bit r = measure a; }\n", "1"),
+    ("generic_chain_derived_first", CHAIN_D + CHAIN_G + CHAIN_P + "function main() -> void { Probe p = new Probe(); p.flipPayload(); bit r = p.readSense(); echo(r); "
+                                    "bit s = p.readPayload(); }\n", "0"),
+    ("generic_chain_base_first", CHAIN_P + CHAIN_G + CHAIN_D + "function main() -> void { Probe p = new Probe(); p.flipPayload(); bit r = p.readSense(); echo(r); "
+                                 "bit s = p.readPayload(); }\n", "0"),
+    ("generic_chain_vs_local", CHAIN_D + CHAIN_G + CHAIN_P + "function main() -> void { qubit a; Probe p = new Probe(); p.flipPayload(); p.flipSense(); bit r = measure a; echo(r); "
+                               "bit s = p.readPayload(); bit t = p.readSense(); }\n", "0"),
+    ("generic_chain_control", CHAIN_D + CHAIN_G + CHAIN_P + "function main() -> void { Probe p = new Probe(); p.flipPayload(); bit s = p.readPayload(); echo(s); "
+                              "bit r = p.readSense(); }\n", "1"),
     # controls: ONE declaration reached by two names must be shared
     ("param_is_same_qubit", "function f(qubit p) -> void { x(p); }\nfunction main() -> void { qubit a; f(a); bit r = measure a; echo(r); }\n", "1"),
     ("field_via_two_refs", QCLS + "function main() -> void { Q o = new Q(); Q o2 = o; x(o.q); bit r = measure o2.q; echo(r); }\n", "1"),
